@@ -532,6 +532,7 @@ class VM(Machine):
         names, attrs, conts = self.modified_by(body_nodes, fr)
         if spec is not None and spec.modifies is not None:
             names, attrs, conts = spec.modifies(self, fr, names, attrs, conts)
+        attrs = set(attrs) - set(getattr(self.spec, "havoc_exclude", ()))
         for nm in sorted(names):
             f = fr
             while f is not None and nm not in f.locals:
